@@ -45,24 +45,38 @@ def fname(i):
 # ---------------------------------------------------------------------------
 # generation
 # ---------------------------------------------------------------------------
-def gen_project(rng, *, mode=None, nfiles=None, as_str=None, max_elems=6):
-    """A valid project (no injected error); returns the case dict."""
+def gen_project(rng, *, mode=None, nfiles=None, as_str=None, max_elems=6, link="import"):
+    """A valid project (no injected error); returns the case dict.
+
+    link: how the files of the project get to know each other
+      "import"  — `import "m2.mdl"` statements + PlainNameImportURI / FQNImportURI (a string is a single file:
+                  a model without file name cannot import);
+      "global"  — no import statements; files 1.. are registered (one pattern per file, order `liborder`) at a
+                  PlainNameGlobalRepo / FQNGlobalRepo and loaded together with the main model, which may be a
+                  STRING; every file sees itself and files 1..;
+      "builtin" — files 1.. are loaded beforehand (stand-alone, from files) into the meta-model's builtin model
+                  repository; only the main model (file or STRING) is loaded by the observed call and sees them.
+    """
     mode = mode or rng.choice(["plain", "fqn"])
     if as_str is None:
         as_str = rng.chance(0.15)
-    if as_str:
-        nfiles = 1
+    if link == "import":
+        if as_str:
+            nfiles = 1
+        elif nfiles is None:
+            nfiles = rng.weighted([(1, 2), (2, 4), (3, 3), (4, 1)])
     elif nfiles is None:
-        nfiles = rng.weighted([(1, 2), (2, 4), (3, 3), (4, 1)])
+        nfiles = rng.weighted([(2, 4), (3, 3), (4, 1)])
     # import graph: every file reachable from file 0
     imports = [[] for _ in range(nfiles)]
-    for j in range(1, nfiles):
-        imports[rng.below(j)].append(j)
-    for i in range(nfiles):
-        for j in range(nfiles):
-            if i != j and j not in imports[i] and rng.chance(0.2):
-                imports[i].append(j)
-        imports[i] = rng.shuffle(imports[i])
+    if link == "import":
+        for j in range(1, nfiles):
+            imports[rng.below(j)].append(j)
+        for i in range(nfiles):
+            for j in range(nfiles):
+                if i != j and j not in imports[i] and rng.chance(0.2):
+                    imports[i].append(j)
+            imports[i] = rng.shuffle(imports[i])
     counter = {"item": 0, "pkg": 0, "ref": 0, "use": 0, "core": 0, "id": 0}
 
     def fresh(kind, prefix):
@@ -90,6 +104,8 @@ def gen_project(rng, *, mode=None, nfiles=None, as_str=None, max_elems=6):
     files = []
     for i in range(nfiles):
         elems = gen_elems(0, rng.randint(1, max_elems))
+        if link == "builtin" and i > 0:
+            elems = strip_refs(elems)  # a finished model: its references are not the observed load's business
         files.append({"name": fname(i), "imports": imports[i], "elems": elems})
 
     def items_of(elems):
@@ -99,10 +115,18 @@ def gen_project(rng, *, mode=None, nfiles=None, as_str=None, max_elems=6):
             elif e["k"] == "pkg":
                 yield from items_of(e["elems"])
 
+    def sees(i):
+        """files whose items file i can refer to (besides its own)"""
+        if link == "import":
+            return imports[i]
+        if link == "global":
+            return [j for j in range(1, nfiles) if j != i]
+        return list(range(1, nfiles)) if i == 0 else []  # builtin
+
     visible = []
     for i in range(nfiles):
         names = list(items_of(files[i]["elems"]))
-        for j in imports[i]:
+        for j in sees(i):
             names += list(items_of(files[j]["elems"]))
         visible.append(names)
     # make sure something can be referenced from every file
@@ -111,7 +135,7 @@ def gen_project(rng, *, mode=None, nfiles=None, as_str=None, max_elems=6):
             nm = fresh("item", "i")
             files[i]["elems"].insert(0, {"k": "item", "name": nm})
             for k in range(nfiles):
-                if k == i or i in imports[k]:
+                if k == i or i in sees(k):
                     visible[k].append(nm)
 
     def mkref(i):
@@ -132,9 +156,30 @@ def gen_project(rng, *, mode=None, nfiles=None, as_str=None, max_elems=6):
     for i in range(nfiles):
         fill(i, files[i]["elems"])
     case = {"mode": mode, "str": bool(as_str), "files": files, "layout": rng.below(1 << 30)}
+    if link != "import":
+        case["link"] = link
+        case["liborder"] = rng.shuffle(list(range(1, nfiles)))
     if rng.chance(0.7):
         compress_waits(case)
     return case
+
+
+def strip_refs(elems):
+    out = []
+    for e in elems:
+        if e["k"] in ("ref", "use"):
+            continue
+        out.append(dict(e, elems=strip_refs(e["elems"])) if e["k"] == "pkg" else e)
+    return out
+
+
+def item_names(elems):
+    """names of the items defined in an element list (nested packages included)"""
+    for e in elems:
+        if e["k"] == "item":
+            yield e["name"]
+        elif e["k"] == "pkg":
+            yield from item_names(e["elems"])
 
 
 def all_refs(case):
@@ -169,6 +214,13 @@ def compress_waits(case):
 def file_order(case):
     """load order = order of the models in the resolution rounds: main first,
     then imports depth-first in text order (first visit)"""
+    link = case.get("link", "import")
+    if link == "builtin":
+        return [0]  # the builtin models are finished models: not part of the observed load
+    if link == "global":
+        # main first (GlobalModelRepository registers the model that asks for the patterns), then the
+        # registered files in registration order
+        return [0] + list(case["liborder"])
     order, seen = [], set()
 
     def go(i):
@@ -242,7 +294,7 @@ def _render(case):
         def ws(first=False):
             # '\r\n' only for strings: files are read with universal newlines
             k = lay.weighted([(" ", 6), ("\n", 3), ("  ", 1), ("\n\n", 1), ("\t", 1), (" # c\n", 1), ("\n  ", 2),
-                              (" # \u00e9\u00fc \u4e2d\n", 1), ("\r\n" if case["str"] else "\n", 1)])
+                              (" # \u00e9\u00fc \u4e2d\n", 1), ("\r\n" if case["str"] and fi == 0 else "\n", 1)])
             if first:
                 k = lay.weighted([("", 3), ("\n", 1), ("  ", 1), ("# head\n", 1)])
             emit_raw(k)
@@ -373,8 +425,32 @@ def load_project(case, R, tools):
     from textx.scoping import Postponed
     from textx.scoping import providers as sp
 
-    mm = metamodel_from_str(GRAMMAR, textx_tools_support=tools)
-    base = sp.PlainNameImportURI() if case["mode"] == "plain" else sp.FQNImportURI()
+    link = case.get("link", "import")
+    tmp = None
+    if not case["str"] or len(R.texts) > 1:
+        tmp = tempfile.mkdtemp(prefix="verif-c28-")
+        for i, t in enumerate(R.texts):
+            if i == 0 and (case["str"] or case.get("vname")):
+                continue  # the main text is handed over as a string (vname: together with a file name)
+            with open(os.path.join(tmp, fname(i)), "w", encoding="utf-8", newline="") as fh:
+                fh.write(t)
+    builtin = None
+    if link == "builtin":
+        # files 1.. are finished models of the builtin repository, each loaded stand-alone from its file
+        from textx.scoping import ModelRepository
+
+        builtin = ModelRepository()
+        lib_mm = metamodel_from_str(GRAMMAR)
+        lib_mm.register_scope_providers({"*.*": sp.PlainName() if case["mode"] == "plain" else sp.FQN()})
+        for i in case["liborder"]:
+            builtin.add_model(lib_mm.model_from_file(os.path.join(tmp, fname(i))))
+    mm = metamodel_from_str(GRAMMAR, textx_tools_support=tools, builtin_models=builtin)
+    if link == "global":
+        base = sp.PlainNameGlobalRepo() if case["mode"] == "plain" else sp.FQNGlobalRepo()
+        for i in case["liborder"]:
+            base.register_models(os.path.join(tmp, fname(i)))
+    else:
+        base = sp.PlainNameImportURI() if case["mode"] == "plain" else sp.FQNImportURI()
     waits = {}
     for r in R.refs:
         waits[(fname(r["file"]), r["start"])] = (r["id"], r["wait"])
@@ -406,16 +482,14 @@ def load_project(case, R, tools):
         return res
 
     mm.register_scope_providers({"*.*": base, "Ref.target": wrapper, "Use.targets": wrapper})
-    tmp = None
     model, exc = None, None
     try:
         if case["str"]:
             model = mm.model_from_str(R.texts[0])
+        elif case.get("vname"):
+            # an unsaved buffer: the text comes as a string together with the name of a file that does not exist
+            model = mm.model_from_str(R.texts[0], file_name=os.path.join(tmp, fname(0)))
         else:
-            tmp = tempfile.mkdtemp(prefix="verif-c28-")
-            for i, t in enumerate(R.texts):
-                with open(os.path.join(tmp, fname(i)), "w", encoding="utf-8", newline="") as fh:
-                    fh.write(t)
             model = mm.model_from_file(os.path.join(tmp, fname(0)))
     except Exception as e:  # everything the code under test raises is an observation
         exc = e
@@ -451,7 +525,7 @@ def lean_files(case, R, nm=None):
     for fi in order:
         refs = sorted((r for r in R.refs if r["file"] == fi), key=lambda r: r["start"])
         files.append({
-            "name": None if case["str"] else fname(fi),
+            "name": None if case["str"] and fi == 0 else fname(fi),
             "text": R.texts[fi],
             "refs": [[r["id"], r["start"], r["end"]] for r in refs],
             "nm": nm.get(fi) if nm else None,
@@ -462,7 +536,10 @@ def lean_files(case, R, nm=None):
 def answer_table(case, R, final):
     """[[id, ["P"]*wait + [final(ref)]]] ; a reference postponed for ever has no final answer"""
     tbl = []
+    loaded = set(file_order(case))
     for r in R.refs:
+        if r["file"] not in loaded:
+            continue  # reference of a finished (builtin) model: not resolved by the observed load
         if r["wait"] == FOREVER:
             tbl.append([r["id"], []])
         else:
